@@ -165,6 +165,11 @@ func (f *compressFilter) Compress(cfg *redis.Compression, command string, resp *
 		if uint32(len(r.Text)) < cfg.Threshold {
 			continue
 		}
+		// The request passes the filter again when it is resent after a
+		// redirection, the value has been compressed already then.
+		if bytes.HasPrefix(r.Text, cpsHdrs[cfg.Algorithm]) {
+			continue
+		}
 		r.Text = f.compress(r.Text, cfg.Algorithm)
 		resp.Array[i] = r
 	}
